@@ -7,7 +7,8 @@ SPEC = {
                           "chunks_join", "chunks_shape", "bytes_encoding", "encode_single_item",
                           "pdata_roundtrip", "pdata_roundtrip_exact", "decoder_refines_tree",
                           "pdata_roundtrip_bytes", "pdata_roundtrip_bytes_exact", "bytes_any_chunking",
-                          "decoded_in_quantifier", "decoded_cmp_total", "decode_reencode_stable"],
+                          "decoded_in_quantifier", "decoded_cmp_total", "decode_reencode_stable",
+                          "decoder_is_parse_then_tree", "decode_eq_decodeBytes", "decoded_span_is_one_item"],
     "streams": [{"name": "pdata", "quick": 1500, "thorough": 60000}],
     "rule": "a case = three related PlutusData values (depth 0..4, width 0..3; tags 121..127, 1280..1400, 102 with any_constructor; "
             "Int / BigUInt / BigNInt incl. leading zeros, -0 and magnitudes around 2^64; byte strings of 0,1,2,31,32,63..66,127..129,192,193 "
